@@ -253,8 +253,11 @@ def monitor_gateway(events, obs):
     has_gw = True
     closed_deliberately = False
     failed = False
+    transport_closed = False
     for ev, st in zip(events, obs["steps"]):
         kinds = [e[0] for e in st]
+        if "tclose" in kinds:
+            transport_closed = True
         for e in st:
             if e[0] == "escaped":
                 return f"exception escaped Gateway.{'connection_lost' if e[1] != 'reset' else 'reset_received'}: {e[2]}"
@@ -265,6 +268,8 @@ def monitor_gateway(events, obs):
         elif ev[0] == "req":
             if "rst" in kinds:
                 req_pending = True
+            elif not req_pending and not transport_closed and not any(e[0] == "resetdone" for e in st):
+                return "a reset request wrote no RST frame although no other request was in progress and the port is open"
         elif ev[0] == "startup":
             start_pending = True
         elif ev[0] == "timer":
